@@ -82,6 +82,10 @@ EXPLANATION += (
     ' Round 10: no directory is created by mkdir / makedirs in worker code or under a scratch parameter (R-FRESH/directories-only-by-mkdtemp).'
 )
 
+EXPLANATION += (
+    ' Round 13: an append to an output file follows its creation on every path (R-FRESH/append-follows-create).'
+)
+
 RULE_TEXT = (
     "one obligation per (CLI runner, input key), per write effect root, "
     "per temp acquisition and exit-set mode, per listing, per worker "
@@ -1250,7 +1254,7 @@ def check_append_follows_create(ctx, rule='R-FRESH/append-follows-create'):
                 om = _open_mode(c)
                 if om is not None and isinstance(om[0], ast.Name) \
                         and om[0].id in fi.params:
-                    events.append((node.id, om[0].id, om[1], c))
+                    events.append((node.id, om[0].id, om[1], c, 'direct'))
                     continue
                 t = resolve_callee(db, fi, c)
                 if isinstance(t, FunctionInfo):
@@ -1269,14 +1273,20 @@ def check_append_follows_create(ctx, rule='R-FRESH/append-follows-create'):
                                             first = (getattr(c2, 'lineno',
                                                              0), o2[1])
                             if first is not None:
-                                events.append((node.id, a.id, first[1], c))
+                                events.append((node.id, a.id, first[1], c,
+                                               'callee'))
         by_path = dict()
         for ev in events:
             by_path.setdefault(ev[1], []).append(ev)
         for pth, evs in sorted(by_path.items()):
             creates = [e for e in evs if e[2] in ('w', 'w-', 'x', 'wb')]
             appends = [e for e in evs if e[2] in ('a', 'r+', 'ab')]
-            if not creates or not appends:
+            # a function that only appends relies on its caller; one that
+            # opens the path itself *and* through a callee puts the file
+            # together, and is judged even when no creating open is left
+            assembles = any(e[4] == 'callee' for e in evs) and any(
+                e[4] == 'direct' for e in evs)
+            if not appends or not (creates or assembles):
                 continue
             for e in appends:
                 n += 1
